@@ -404,6 +404,8 @@ def _eval_x(e: ast.AST, env: dict[str, object], funcs: dict[str, object]):
             return f(_eval_x(e.left, env, funcs), _eval_x(e.comparators[0], env, funcs))
     if isinstance(e, ast.Constant):
         return e.value
+    if isinstance(e, ast.JoinedStr):
+        return "<formatted text>"  # message text: its content never decides a guard
     # delegate to mini_eval with a pre-resolved environment of the sub-expressions it cannot see through
     sub: dict[str, object] = dict(env)
     for n in ast.walk(e):
@@ -417,6 +419,10 @@ def _eval_x(e: ast.AST, env: dict[str, object], funcs: dict[str, object]):
                 except AnalysisError:
                     pass
     return mini_eval(e, sub)
+
+
+class MiniRaised(Exception):
+    """mini_exec reached a `raise`; .args[0] is the raised class name."""
 
 
 def mini_exec(fn: ast.FunctionDef, env: dict[str, object], funcs: dict[str, object] | None = None):
@@ -454,6 +460,9 @@ def mini_exec(fn: ast.FunctionDef, env: dict[str, object], funcs: dict[str, obje
             if isinstance(st, ast.Expr):
                 _eval_x(st.value, env, funcs)
                 continue
+            if isinstance(st, ast.Raise):
+                exc = st.exc.func if isinstance(st.exc, ast.Call) else st.exc
+                raise MiniRaised(ast.unparse(exc).split(".")[-1] if exc is not None else "reraise")
             raise AnalysisError(f"mini_exec: unsupported statement {type(st).__name__}")
 
     try:
